@@ -29,6 +29,15 @@ theorem qLoop_frame (R : Rules) (rec : Game → Int → Int → Env → Int × E
       · exact h3
       · exact h3.trans (ih _ _)
 
+theorem qEnter_frame (cfg : Cfg) (g : Game) (alpha beta : Int) (e : Env) : Frame e (qEnter cfg g alpha beta e) := by
+  unfold qEnter
+  simp only
+  have h1 := onNode_frame cfg e 2 g 0 alpha beta
+  generalize e.onNode cfg 2 g 0 alpha beta = e1 at h1
+  have h2 := maybePoll_frame cfg e1
+  generalize e1.maybePoll cfg = e2 at h2
+  exact (h1.trans h2).trans (Frame.of_same rfl rfl rfl rfl rfl rfl rfl rfl rfl rfl rfl rfl (Nat.le_succ _))
+
 theorem quiescence_frame (R : Rules) (cfg : Cfg) : ∀ fuel, QRecFrame (quiescence R cfg fuel) := by
   intro fuel
   induction fuel with
@@ -36,18 +45,13 @@ theorem quiescence_frame (R : Rules) (cfg : Cfg) : ∀ fuel, QRecFrame (quiescen
   | succ fuel ih =>
     intro g alpha beta e
     simp only [quiescence]
-    have h1 := onNode_frame cfg e 2 g 0 alpha beta
-    generalize e.onNode cfg 2 g 0 alpha beta = e1 at h1
-    have h2 := maybePoll_frame cfg e1
-    generalize e1.maybePoll cfg = e2 at h2
-    have h3 : Frame e2 { e2 with nodes := e2.nodes + 1 } :=
-      Frame.of_same rfl rfl rfl rfl rfl rfl rfl rfl rfl rfl rfl rfl (Nat.le_succ _)
-    have h123 := (h1.trans h2).trans h3
+    have h123 := qEnter_frame cfg g alpha beta e
+    generalize qEnter cfg g alpha beta e = e3 at h123
     split
     · exact h123
     · split
       · exact h123
-      · have hs := (sortMoves_frame g (R.generate g false) { e2 with nodes := e2.nodes + 1 }).1
+      · have hs := (sortMoves_frame g (R.generate g false) e3).1
         exact (h123.trans hs).trans (qLoop_frame R _ ih g beta _ _ _)
 
 theorem searchChild_frame (rec : Game → Nat → Int → Int → Env → Int × Env) (hrec : RecFrame rec) (c : Game) (m : Move)
